@@ -624,7 +624,60 @@ def fam_getitem(rng):
     return thunk
 
 
+def fam_function(rng):
+    """funsor.function / Function terms: single- and MULTI-output functions applied, in ONE program, to several
+    operands that are views of one buffer (rows, blocks, columns), interleaved (A, B, A), directly and lazily built
+    then bound — the multi-output wrapper sits on a one-slot memo keyed by operand identity."""
+    import typing
+    from funsor.tensor import function
+
+    def thunk():
+        n = rng.choice([2, 3])
+        rows = rng.choice([3, 4])
+        base = np.array([float(rng.choice([-2, -1, 0, 1, 2, 3, 4, 5])) for _ in range(rows * n)]).reshape(rows, n)
+
+        @function(Reals[n], typing.Tuple[Real, Bint[n]])
+        def max_and_argmax(x):
+            return x.max(-1), x.argmax(-1)
+
+        @function(Reals[n], typing.Tuple[Real, Real])
+        def sum_and_first(x):
+            return x.sum(-1), x[..., 0]
+
+        @function(Reals[n], Real)
+        def total(x):
+            return (x * np.arange(1, n + 1)).sum(-1)
+        k = rng.branch(6)
+        f = [max_and_argmax, sum_and_first, max_and_argmax, total, sum_and_first, max_and_argmax][k]
+        if k in (0, 1, 3):
+            views = [Tensor(base[r]) for r in range(rows)]                       # rows: same shape & strides
+        elif k == 2:
+            ins = OrderedDict(i=Bint[2])
+            views = [Tensor(base[r:r + 2], ins) for r in range(rows - 1)]        # overlapping blocks, batched
+        elif k == 4:
+            sq = base[:n, :n]
+            views = [Tensor(sq[:, c]) for c in range(n)] + [Tensor(sq[c]) for c in range(n)]   # columns and rows
+        else:
+            views = [Tensor(base[r]) for r in range(rows)]
+        a, b = rng.sample(range(len(views)), 2)
+        order = [views[a], views[b], views[a]] + [views[rng.randrange(len(views))] for _ in range(2)]
+        outs = []
+        if k == 5:
+            lazy = f(Variable("x", Reals[n]))                                    # lazily built, then bound
+            for v in order:
+                outs.append(lazy(x=v) if isinstance(lazy, Funsor) else lazy)
+        else:
+            for v in order:
+                outs.append(f(v))
+        flat = []
+        for o in outs:
+            flat.extend(o.args if isinstance(o, Tuple) else [o])
+        return Tuple(tuple(flat))
+    return thunk
+
+
 FAMILIES = OrderedDict([
+    ("function", fam_function),
     ("getitem", fam_getitem),
     ("tensordot", fam_tensordot),
     ("subschain", fam_subschain),
